@@ -265,11 +265,33 @@ Definition denote (c : chain) : option (list atom * list bond) :=
 Definition digit_ok (d : nat) : bool := d <? 10.
 Definition h_ok (h : hspec) : bool := match h with HNum d => digit_ok d | _ => true end.
 Definition c_ok (c : cspec) : bool := match c with CNum _ d => digit_ok d | _ => true end.
+(* the class is a non-empty decimal numeral; Python's int() refuses more than 4300 digits *)
+Definition max_class_digits : nat := 4300.
 Definition class_ok (k : option (list nat)) : bool :=
-  match k with None => true | Some ds => negb (length ds =? 0) && forallb digit_ok ds end.
-(* bracket symbols: any element of the periodic table the package knows, or b c n o p s *)
+  match k with
+  | None => true
+  | Some ds => negb (length ds =? 0) && forallb digit_ok ds && (length ds <=? max_class_digits)
+  end.
+(* the periodic table, written down here independently of the package (hydrogen ... oganesson); the atomic
+   number of a symbol is its position.  Props.elements_are_the_periodic_table states that the package's
+   `elements` list (regenerated from autode/atoms.py on every run) is this list. *)
+Definition periodic : list str := [
+  ["H"]; ["H"; "e"]; ["L"; "i"]; ["B"; "e"]; ["B"]; ["C"]; ["N"]; ["O"]; ["F"]; ["N"; "e"];
+  ["N"; "a"]; ["M"; "g"]; ["A"; "l"]; ["S"; "i"]; ["P"]; ["S"]; ["C"; "l"]; ["A"; "r"]; ["K"]; ["C"; "a"];
+  ["S"; "c"]; ["T"; "i"]; ["V"]; ["C"; "r"]; ["M"; "n"]; ["F"; "e"]; ["C"; "o"]; ["N"; "i"]; ["C"; "u"]; ["Z"; "n"];
+  ["G"; "a"]; ["G"; "e"]; ["A"; "s"]; ["S"; "e"]; ["B"; "r"]; ["K"; "r"]; ["R"; "b"]; ["S"; "r"]; ["Y"]; ["Z"; "r"];
+  ["N"; "b"]; ["M"; "o"]; ["T"; "c"]; ["R"; "u"]; ["R"; "h"]; ["P"; "d"]; ["A"; "g"]; ["C"; "d"]; ["I"; "n"]; ["S"; "n"];
+  ["S"; "b"]; ["T"; "e"]; ["I"]; ["X"; "e"]; ["C"; "s"]; ["B"; "a"]; ["L"; "a"]; ["C"; "e"]; ["P"; "r"]; ["N"; "d"];
+  ["P"; "m"]; ["S"; "m"]; ["E"; "u"]; ["G"; "d"]; ["T"; "b"]; ["D"; "y"]; ["H"; "o"]; ["E"; "r"]; ["T"; "m"]; ["Y"; "b"];
+  ["L"; "u"]; ["H"; "f"]; ["T"; "a"]; ["W"]; ["R"; "e"]; ["O"; "s"]; ["I"; "r"]; ["P"; "t"]; ["A"; "u"]; ["H"; "g"];
+  ["T"; "l"]; ["P"; "b"]; ["B"; "i"]; ["P"; "o"]; ["A"; "t"]; ["R"; "n"]; ["F"; "r"]; ["R"; "a"]; ["A"; "c"]; ["T"; "h"];
+  ["P"; "a"]; ["U"]; ["N"; "p"]; ["P"; "u"]; ["A"; "m"]; ["C"; "m"]; ["B"; "k"]; ["C"; "f"]; ["E"; "s"]; ["F"; "m"];
+  ["M"; "d"]; ["N"; "o"]; ["L"; "r"]; ["R"; "f"]; ["D"; "b"]; ["S"; "g"]; ["B"; "h"]; ["H"; "s"]; ["M"; "t"]; ["D"; "s"];
+  ["R"; "g"]; ["C"; "n"]; ["N"; "h"]; ["F"; "l"]; ["M"; "c"]; ["L"; "v"]; ["T"; "s"]; ["O"; "g"]].
+Definition spec_z (label : str) : nat := S (index_str (capitalize label) periodic).
+(* bracket symbols: any element of the periodic table, or b c n o p s *)
 Definition arom_syms : list str := [["b"]; ["c"]; ["n"]; ["o"]; ["s"]; ["p"]].
-Definition sym_ok (s : str) : bool := mem_str s elements || mem_str s arom_syms.
+Definition sym_ok (s : str) : bool := mem_str s periodic || mem_str s arom_syms.
 Definition bracket_ok (b : bracket) : bool :=
   sym_ok (k_sym b) && (k_chir b <=? 2) && h_ok (k_h b) && c_ok (k_c b) && class_ok (k_class b).
 Definition satom_ok (a : satom) : bool := match a with Org _ => true | Brk b => bracket_ok b end.
@@ -298,6 +320,14 @@ with rename_tail (f : nat -> nat) (t : tail) : tail :=
   | TBranch b c t' => TBranch b (rename f c) (rename_tail f t')
   | TNext b c => TNext b (rename f c)
   end.
+
+(* ------------------------------------------------------------------ electron count of a molecule *)
+(* sum of atomic numbers (periodic table above) plus hydrogens minus the total charge *)
+Definition spec_electrons (ats : list atom) : Z :=
+  fold_right (fun a acc => (Z.of_nat (spec_z (a_label a)) + Z.of_nat (match a_nh a with Some h => h | None => 0 end)
+                            - a_charge a + acc)%Z) 0%Z ats.
+(* multiplicity of the lowest-spin state: singlet for an even, doublet for an odd number of electrons *)
+Definition spec_mult (ats : list atom) : Z := (spec_electrons ats mod 2 + 1)%Z.
 
 (* ------------------------------------------------------------------ totals read off the tree *)
 Definition satom_charge (a : satom) : Z := match a with Org _ => 0%Z | Brk b => c_value (k_c b) end.
